@@ -20,7 +20,7 @@ LEVEL = "exploration"
 RULE = ("header = valid base header + exactly one violation drawn from: required parameter missing (alg; enc; on consumption epk / p2s / "
         "p2c / iv / tag), registered parameter (alg, jku, jwk, kid, x5u, x5c, x5t, x5t#S256, typ, cty, crit, enc, zip, epk, apu, apv, p2s, "
         "p2c, iv, tag, skid, b64) given a value of each other JSON type (for booleans also the numbers 0, 1, 0.0, 1.0), crit naming an absent parameter, b64 without crit (RFC 7797), "
-        "unregistered name under strict checking, caller-registered parameter with wrong type / required but missing; or no violation "
+        "unregistered name under strict checking (also when the header lists it in crit), caller-registered parameter with wrong type / required but missing; or no violation "
         "(caller-registered parameter with right type, unregistered name with strict off) which MUST be accepted; caller re-registration of kid / cty as required. Position: protected, "
         "unprotected, per-recipient (also of the second of two recipients, every-recipient and any-recipient validation); direction: produce (joserfc serializes) and consume (reference-minted valid token); JWS compact / "
         "flattened / general / RFC 7797, JWE compact / flattened / general over dir, A128KW, ECDH-ES, PBES2, A128GCMKW; JWE JSON objects also reused as a template (clean header encrypted or read first, then the header under test put into the same object). distinct = "
@@ -89,7 +89,7 @@ def cases(draw):
     if kind == "jwe":
         types.update(ALG_SPECIFIC.get(alg, {}))
     rule = draw(st.sampled_from(["type", "type", "type", "type", "missing", "crit", "unregistered", "strict-off", "custom-ok", "custom-type", "custom-required",
-                                 "alg-specific-missing", "b64-no-crit", "none"]))
+                                 "alg-specific-missing", "b64-no-crit", "unregistered-crit", "none"]))
     pos = "protected" if ser == "compact" else draw(st.sampled_from(["protected", "unprotected"] + (["recipient"] if kind == "jwe" else [])))
     c = {"kind": kind, "dir": direction, "ser": ser, "rfc7797": rfc7797, "alg": alg, "rule": rule, "pos": pos, "seed": draw(st.integers(0, 1000)),
          # a registry with caller-registered parameters is created (and used) first: it must not influence the registry under test
@@ -106,6 +106,10 @@ def cases(draw):
         c["name"] = draw(st.sampled_from(["alg", "enc"] if kind == "jwe" else ["alg"]))
     elif rule == "crit":
         c["name"] = draw(st.sampled_from(["exp", "nope", "kid", "b64"]))
+    elif rule == "unregistered-crit":
+        # an unregistered parameter that the header itself lists in crit: listing it does not register it
+        c["name"] = draw(st.sampled_from(["x-ext", "foo", "exp", "b65"]))
+        c["value"] = draw(st.sampled_from([1, "v", [1], {"a": 1}, True]))
     elif rule in ("unregistered", "strict-off"):
         # invented names, and names that only OTHER algorithms or the other token kind define
         foreign = [n for a, d in ALG_SPECIFIC.items() if not (kind == "jwe" and (a == alg or (a == "ECDH-1PU" and False))) for n in d
@@ -177,6 +181,10 @@ def build_headers(c):
             exp = "dont_care"   # crit naming a present standard parameter
         if name == "b64" and c["rfc7797"]:
             exp = "dont_care"
+    elif rule == "unregistered-crit":
+        target[name] = c["value"]
+        prot["crit"] = list(prot.get("crit", [])) + [name]
+        exp = "reject"
     elif rule == "unregistered":
         target[name] = c["value"]
         exp = "reject"
